@@ -74,6 +74,8 @@ func DecProgs(s string) ([]Prog, error) {
 		p := Prog{Ret: f[0]}
 		for _, o := range f[1:] {
 			switch {
+			case o == "c":
+				p.Close = true
 			case o == "r":
 				p.Ops = append(p.Ops, Op{Read: true})
 			case strings.HasPrefix(o, "w"):
